@@ -11,8 +11,24 @@ real `BKVectors.from_kpoints(recip_lattice, mp_grid, kpoints_red)` and judged by
 
 A search that refuses to choose ("Could not find a complete set of bk vectors") does not contradict the
 statement (which is about the chosen vectors); such (lattice, mesh) pairs are reported as `no_solution`.
+
+Two more case families (added after two seeded changes were missed):
+
+  * sheared   the same Bravais lattices described by strongly sheared, unreduced unit cells  a_j -> a_j + s*a_i
+              (the b-vectors then have integer coordinates beyond the default search box +-2*mp_grid, so the part of
+              `find_bk_vectors` that decides whether the box was large enough becomes decisive); same four oracles
+              (the whole-shell reference box is derived here from the column norms of inv(basis), independently of
+              the code); whether the Cartesian b-vectors equal those of the compact cell is *observed* (counted in
+              the evidence), not judged: the statement does not forbid a different complete choice.
+  * nnkp      `BKVectors.from_nnkp` on harness-written Wannier90 .nnkp files (temporary directory per case, removed
+              afterwards) that list the b-vectors found by `from_kpoints` in every order of an explicit alphabet
+              (the format does not prescribe an order); same four oracles on the object that was read, plus the
+              differential relation  {(b, w_b)} from_nnkp == {(b, w_b)} from_kpoints.
 """
 import itertools
+import os
+import shutil
+import tempfile
 
 import numpy as np
 
@@ -23,7 +39,16 @@ RULE = ("cases = (lattice, mesh, ordering family); families: id, rev (reversed l
         "on the identity and the reversed list), digits8 (coordinates truncated / rounded to 8 decimals as in a "
         "Wannier90 text file); each ordering is one call of BKVectors.from_kpoints; non-trivial = "
         "the search returned b-vectors (all four oracles applied) and, for families other than id, NK>1; "
-        "(lattice, mesh) pairs where the search refuses are counted in no_solution and are not non-trivial")
+        "(lattice, mesh) pairs where the search refuses are counted in no_solution and are not non-trivial; "
+        "family sheared: cases = (lattice, shear a_j -> a_j + s*a_i, mesh), one from_kpoints call on the sheared cell "
+        "(identity k order) judged by the same four oracles, non-trivial key = (lattice, shear, mesh) when b-vectors "
+        "were returned (beyond_default_box counts the cases where a whole shell reaches outside +-2*mp_grid, i.e. where "
+        "the code's box-sufficiency bound is decisive); family nnkp: cases = (lattice, mesh), inside one case one "
+        ".nnkp file per neighbour ordering (shell: shell by shell as from_kpoints returns them; rev; pm_split: all b "
+        "then all -b, 'x y z -x -y -z'; interleave: round robin over the shells; rot1, rot3: list rotated by 1 and by "
+        "NNB//3; perk: a different rotation of pm_split for every k-point; krev: pm_split with the k-point list "
+        "reversed so that k-point 1 is not Gamma) read by BKVectors.from_nnkp; non-trivial key = (lattice, mesh, "
+        "'nnkp', ordering) only when the b-vectors form at least two shells with different weights")
 ASSUMPTIONS = [
     "lattice alphabet: the 8 zoo cells, hexagonal and tetragonal cells with c/a in {0.5, 1, sqrt(8/3), 3} "
     "(tetragonal c/a=1 is the zoo 'sc' and is not repeated); thorough adds c/a in {1/3, 2, 4}, rhombohedral, "
@@ -37,6 +62,22 @@ ASSUMPTIONS = [
     "orderings: for NK>64 the transposition family is restricted to the first 64 adjacent pairs",
     "weights are not required to be positive or non-zero (the statement does not say so); zero/negative weights "
     "are counted in the evidence",
+    "sheared cells: elementary shears a_j -> a_j + s*a_i of the lattice alphabet, all 6 ordered axis pairs, s in {3, 5} "
+    "(thorough adds s in {-4, 7}); meshes (1,1,1) (2,2,2) (3,3,3) (2,3,4) (1,2,3) (1,1,4) (5,1,1) (4,4,1) "
+    "(thorough adds (4,4,4) (3,5,2)); in quick s=5 is not combined with the meshes (5,1,1) and (4,4,1), and in thorough "
+    "|s|>=5 is not combined with (5,1,1) (4,4,1) (4,4,4) (3,5,2), because the code's second, enlarged search box makes "
+    "these cases cost seconds each; no compound shears, no |s| > 7",
+    "sheared cells: the search refuses (RuntimeError) much more often than for the compact cell of the same lattice, "
+    "because a refusal inside the default box is not followed by a larger box; refusals are counted "
+    "(no_solution_sheared, sheared_refusals_where_compact_cell_succeeds), not judged; the dependence of the Cartesian "
+    "b-vector set on the cell description is counted (cell_dependent_choice), not judged",
+    "nnkp: the files contain real_lattice with 17 significant digits (exact round trip; a 7-decimal lattice would split "
+    "symmetric shells by ~1e-7, which is outside the statement), k-points i/n with 8 decimals, the b-vector set that "
+    "from_kpoints chose for the same lattice and mesh, every k-point listed; default kmesh_tol/bk_complete_tol of "
+    "from_nnkp, lattice taken from the file, kptirr=None; meshes with NK<=32 in quick (no 4x4x4); the order of "
+    "bk_grid relative to the file is not judged (not in the statement); only k-point 1 of the file determines the "
+    "b-vector order inside the code, the per-k ordering therefore only tests that the other lists are not trusted "
+    "blindly",
 ]
 
 SQ3 = np.sqrt(3.0)
@@ -72,6 +113,42 @@ def meshes(tier):
 
 KINDS = ("id", "rev", "fortran", "transp", "irr", "digits8")
 
+# ---------------------------------------------------------------- sheared / unreduced descriptions of the lattices
+EXPENSIVE_SHEAR_MESHES = ((5, 1, 1), (4, 4, 1), (4, 4, 4), (3, 5, 2))
+
+
+def shear_meshes(tier):
+    m = [(1, 1, 1), (2, 2, 2), (3, 3, 3), (2, 3, 4), (1, 2, 3), (1, 1, 4), (5, 1, 1), (4, 4, 1)]
+    if tier != "quick":
+        m += [(4, 4, 4), (3, 5, 2)]
+    return m
+
+
+def shears(tier, mesh):
+    """tags 'a<j>+<s>a<i>' :  a_j -> a_j + s*a_i  (unimodular, the lattice is unchanged)"""
+    svals = [3, 5] if tier == "quick" else [3, 5, -4, 7]
+    if tuple(mesh) in EXPENSIVE_SHEAR_MESHES:
+        svals = [s for s in svals if abs(s) < 5]
+    for s in svals:
+        for i, j in itertools.permutations(range(3), 2):
+            yield f"a{j + 1}{s:+d}a{i + 1}"
+
+
+def shear_matrix(tag):
+    j, rest = int(tag[1]) - 1, tag[2:]
+    s, i = rest.split("a")
+    U = np.eye(3, dtype=int)
+    U[j, int(i) - 1] = int(s)
+    return U
+
+
+# ---------------------------------------------------------------- .nnkp files
+NNKP_ORDERS = ("shell", "rev", "pm_split", "interleave", "rot1", "rot3", "perk", "krev")
+
+
+def nnkp_meshes(tier):
+    return [m for m in meshes(tier) if tier != "quick" or int(np.prod(m)) <= 32]
+
 
 def cases(tier, seed):
     L = lattices(tier)
@@ -82,6 +159,13 @@ def cases(tier, seed):
                 if nk == 1 and kind != "id":
                     continue
                 yield {"lat": lat, "mesh": list(mesh), "kind": kind}
+    for mesh in nnkp_meshes(tier):
+        for lat in L:
+            yield {"lat": lat, "mesh": list(mesh), "kind": "nnkp"}
+    for mesh in shear_meshes(tier):
+        for lat in L:
+            for sh in shears(tier, mesh):
+                yield {"lat": lat, "mesh": list(mesh), "kind": "sheared", "shear": sh}
 
 
 def grid_points(mesh):
@@ -234,9 +318,206 @@ def check_neighbours(bkv, kint, mesh, kptirr, nnb):
     return None
 
 
+REFUSALS = ("Could not find a complete set", "Could not find a set of complete shells")
+
+
+def shell_groups(bk_cart, scale):
+    """indices of the b-vectors grouped by length (ascending), same tolerance as check_shells"""
+    ln = np.linalg.norm(bk_cart, axis=1)
+    groups = []
+    for i in np.argsort(ln, kind="stable"):
+        if groups and ln[i] - ln[groups[-1][-1]] <= 1e-7 * scale:
+            groups[-1].append(int(i))
+        else:
+            groups.append([int(i)])
+    return groups
+
+
+def run_sheared(case):
+    """the lattice `lat` described by the unreduced cell U @ A: same oracles as for the compact cell"""
+    from wannierberri.w90files.bkvectors import BKVectors
+    lat, mesh, sh = case["lat"], tuple(case["mesh"]), case["shear"]
+    A0 = lattices("thorough")[lat]
+    U = shear_matrix(sh)
+    A = U @ A0
+    mp = np.array(mesh, dtype=int)
+    recip0 = 2 * np.pi * np.linalg.inv(A0).T
+    recip = 2 * np.pi * np.linalg.inv(A).T
+    kint = grid_points(mesh)
+    tag = f"lattice={lat} shear={sh} real_lattice={A.tolist()} mesh={list(mesh)}"
+    nt = [[lat, sh, list(mesh), "sheared"]]
+    # the compact cell of the same lattice (only observed: does the search succeed, does it give the same vectors)
+    try:
+        base = BKVectors.find_bk_vectors(recip0.copy(), mp.copy())
+    except RuntimeError as e:
+        if not any(m in str(e) for m in REFUSALS):
+            raise
+        base = None
+    try:
+        bkv = BKVectors.from_kpoints(recip.copy(), mp.copy(), kint / mp[None, :])
+    except RuntimeError as e:
+        if any(m in str(e) for m in REFUSALS):
+            return {"ok": True, "nontrivial": False,
+                    "obs": {"no_solution": True, "sheared": True, "compact_cell_has_solution": base is not None}}
+        if "Could not find a neighbour" in str(e):
+            return {"ok": False, "key": "neighbours:not_found", "nontrivial": nt, "detail": f"{tag}: {str(e)[:200]}"}
+        raise
+    fail, obs = check_shells(recip, mesh, np.asarray(bkv.wk), np.asarray(bkv.bk_cart), bkv.bk_grid)
+    obs["sheared"] = True
+    if fail:
+        fail["detail"] = f"{tag}: " + fail["detail"]
+        return {"ok": False, "nontrivial": nt, **fail, "obs": obs}
+    fail = check_neighbours(bkv, kint, mesh, None, len(bkv.wk))
+    if fail:
+        fail["detail"] = f"{tag}: " + fail["detail"]
+        return {"ok": False, "nontrivial": nt, **fail, "obs": obs}
+    bg = np.asarray(bkv.bk_grid)
+    obs["beyond_default_box"] = bool(np.any(np.abs(bg) > 2 * mp[None, :]))
+    obs["max_G"] = int(max(np.abs(np.asarray(g)).max() for g in bkv.G.values()))
+    # observation: is the choice the same set of Cartesian vectors (and weights) as for the compact cell?  Only
+    # comparable when both cells generate the same mesh lattice (always for NxNxN, otherwise iff T is unimodular).
+    T = (recip / mp[:, None]) @ np.linalg.inv(recip0 / mp[:, None])     # b_grid(compact) = b_grid(sheared) @ T
+    same_mesh = bool(np.abs(T - np.rint(T)).max() < 1e-9 and abs(abs(np.linalg.det(T)) - 1) < 1e-9)
+    obs["same_mesh_lattice"] = same_mesh
+    if same_mesh and base is not None:
+        Ti = np.rint(T).astype(int)
+        mine = {tuple(int(x) for x in b @ Ti): float(w) for b, w in zip(bg, bkv.wk)}
+        ref = {tuple(int(x) for x in b): float(w) for b, w in zip(base[2], base[0])}
+        wsc = max(abs(w) for w in ref.values())
+        obs["cell_dependent_choice"] = not (set(mine) == set(ref) and
+                                            all(abs(mine[b] - ref[b]) <= 1e-9 * wsc for b in ref))
+    if obs.get("ambiguous"):
+        return {"ok": True, "nontrivial": False, "obs": obs}
+    return {"ok": True, "nontrivial": nt, "obs": obs}
+
+
+def nnkp_orderings(bk_grid, groups, nk):
+    """yield (name, reverse_k_list, [for every k-point the permutation of range(NNB) in which its neighbours are
+    listed]); `groups` = shells (index lists) of the reference order, which is shell by shell"""
+    nnb = len(bk_grid)
+    ident = list(range(nnb))
+    tup = [tuple(int(x) for x in b) for b in bk_grid]
+    pos = {t: i for i, t in enumerate(tup)}
+
+    def positive(t):
+        return next(x for x in t if x != 0) > 0
+    plus = [i for i in ident if positive(tup[i])]
+    pm_split = plus + [pos[tuple(-x for x in tup[i])] for i in plus]
+    inter = [g[i] for i in range(max(len(g) for g in groups)) for g in groups if i < len(g)]
+
+    def rot(p, n):
+        n %= len(p)
+        return p[n:] + p[:n]
+    yield "shell", False, [ident] * nk
+    yield "rev", False, [ident[::-1]] * nk
+    yield "pm_split", False, [pm_split] * nk
+    yield "interleave", False, [inter] * nk
+    yield "rot1", False, [rot(ident, 1)] * nk
+    yield "rot3", False, [rot(ident, nnb // 3)] * nk
+    yield "perk", False, [rot(pm_split, ik + 1) for ik in range(nk)]
+    yield "krev", True, [pm_split] * nk
+
+
+def write_nnkp(path, A, mesh, kint, bk_grid, perms):
+    """a Wannier90 .nnkp file: k-point ik lists its neighbours k+b for b = bk_grid[perms[ik]] (reference arithmetic:
+    k + b = k_nb + G*mesh by integer divmod)"""
+    mp = np.array(mesh, dtype=int)
+    recip = 2 * np.pi * np.linalg.inv(A).T
+    index = {tuple(int(x) for x in k % mp): i for i, k in enumerate(kint)}
+    lines = ["File written by /verif/wbmc/props/c22.py", "", "calc_only_A  :  F", "", "begin real_lattice"]
+    lines += [" ".join(repr(float(x)) for x in row) for row in A]
+    lines += ["end real_lattice", "", "begin recip_lattice"]
+    lines += [" ".join(f"{x:12.7f}" for x in row) for row in recip]
+    lines += ["end recip_lattice", "", "begin kpoints", f"{len(kint):6d}"]
+    lines += ["".join(f"{x:14.8f}" for x in k / mp) for k in kint]
+    lines += ["end kpoints", "", "begin projections", "     0", "end projections", "",
+              "begin nnkpts", f"{len(bk_grid):4d}"]
+    for ik, k in enumerate(kint):
+        for ib in perms[ik]:
+            G, k2 = np.divmod(k + bk_grid[ib], mp)
+            lines.append(f"{ik + 1:6d}{index[tuple(int(x) for x in k2)] + 1:6d}   {G[0]:4d}{G[1]:4d}{G[2]:4d}")
+    lines += ["end nnkpts", "", "begin exclude_bands", "   0", "end exclude_bands", ""]
+    with open(path, "w") as f:
+        f.write("\n".join(lines))
+
+
+def run_nnkp(case):
+    from wannierberri.w90files.bkvectors import BKVectors
+    lat, mesh = case["lat"], tuple(case["mesh"])
+    A = lattices("thorough")[lat]
+    recip = 2 * np.pi * np.linalg.inv(A).T
+    mp = np.array(mesh, dtype=int)
+    pts = grid_points(mesh)
+    nk = len(pts)
+    tag = f"lattice={lat} real_lattice={A.tolist()} mesh={list(mesh)}"
+    try:
+        ref = BKVectors.from_kpoints(recip.copy(), mp.copy(), pts / mp[None, :])
+    except RuntimeError as e:
+        if any(m in str(e) for m in REFUSALS):
+            return {"ok": True, "nontrivial": False, "obs": {"no_solution": True, "nnkp": True}}
+        raise
+    ref_grid = np.array(ref.bk_grid)
+    ref_w = {tuple(int(x) for x in b): float(w) for b, w in zip(ref_grid, ref.wk)}
+    wsc = max(abs(w) for w in ref_w.values())
+    scale = np.linalg.norm(recip / mp[:, None], axis=1).max()
+    groups = shell_groups(ref_grid @ (recip / mp[:, None]), scale)
+    wshell = [ref.wk[g[0]] for g in groups]
+    several = len(groups) >= 2 and max(wshell) - min(wshell) > 1e-6 * wsc
+    obs = None
+    done = []
+    root = "/dev/shm" if os.path.isdir("/dev/shm") and os.access("/dev/shm", os.W_OK) else None
+    tmp = tempfile.mkdtemp(prefix="wbmc_c22_nnkp_", dir=root)
+    try:
+        for name, krev, perms in nnkp_orderings(ref_grid, groups, nk):
+            kint = pts[::-1] if krev else pts
+            where = f"{tag} nnkp_order={name} (k-point 1 lists b={ref_grid[perms[0]].tolist()})"
+            nt = [[lat, list(mesh), "nnkp", name]]
+            path = os.path.join(tmp, f"{name}.nnkp")
+            write_nnkp(path, A, mesh, kint, ref_grid, perms)
+            try:
+                bkv = BKVectors.from_nnkp(path)
+            except Exception as e:      # the file lists a set that from_kpoints itself found complete
+                return {"ok": False, "key": "nnkp:from_nnkp_raises", "nontrivial": nt,
+                        "detail": f"{where}: {type(e).__name__}: {str(e)[:300]}"}
+            if tuple(int(x) for x in bkv.mp_grid) != mesh:
+                return {"ok": False, "key": "nnkp:mp_grid", "nontrivial": nt, "detail": f"{where}: mp_grid={bkv.mp_grid}"}
+            fail, obs1 = check_shells(recip, mesh, np.asarray(bkv.wk), np.asarray(bkv.bk_cart), bkv.bk_grid)
+            if fail:
+                fail["detail"] = f"{where}: " + fail["detail"]
+                fail["key"] = "nnkp:" + fail["key"]
+                return {"ok": False, "nontrivial": nt, **fail, "obs": obs1}
+            obs = obs or obs1
+            fail = check_neighbours(bkv, kint, mesh, None, len(bkv.wk))
+            if fail:
+                fail["detail"] = f"{where}: " + fail["detail"]
+                fail["key"] = "nnkp:" + fail["key"]
+                return {"ok": False, "nontrivial": nt, **fail}
+            got = {tuple(int(x) for x in b): float(w) for b, w in zip(bkv.bk_grid, bkv.wk)}
+            if set(got) != set(ref_w):
+                return {"ok": False, "key": "nnkp:bvectors_differ_from_file", "nontrivial": nt,
+                        "detail": f"{where}: from_nnkp has {sorted(got)}, the file lists {sorted(ref_w)}"}
+            bad = [b for b in ref_w if abs(got[b] - ref_w[b]) > 1e-9 * wsc]
+            if bad:
+                return {"ok": False, "key": "nnkp:weights_differ_from_from_kpoints", "nontrivial": nt,
+                        "detail": f"{where}: b={bad[0]} w(from_nnkp)={got[bad[0]]!r} w(from_kpoints)={ref_w[bad[0]]!r}"}
+            done.append(name)
+    finally:
+        shutil.rmtree(tmp, ignore_errors=True)
+    obs["nnkp"] = True
+    obs["nnkp_files"] = len(done)
+    obs["several_weights"] = bool(several)
+    if obs.get("ambiguous") or not several:
+        return {"ok": True, "nontrivial": False, "obs": obs}
+    return {"ok": True, "nontrivial": [[lat, list(mesh), "nnkp", name] for name in done], "obs": obs}
+
+
 def run_case(case, seed):
     from wannierberri.w90files.bkvectors import BKVectors
     lat, mesh, kind = case["lat"], tuple(case["mesh"]), case["kind"]
+    if kind == "sheared":
+        return run_sheared(case)
+    if kind == "nnkp":
+        return run_nnkp(case)
     L = lattices("thorough")
     A = L[lat]
     recip = 2 * np.pi * np.linalg.inv(A).T
@@ -285,9 +566,37 @@ def run_case(case, seed):
 def finish(tier, cases, results):
     nosol, amb, zero, neg, norder = set(), set(), set(), set(), 0
     pairs = set()
+    sh = {"cases": 0, "no_solution": 0, "refusals_where_compact_cell_succeeds": 0, "judged": 0,
+          "beyond_default_box": 0, "same_mesh_lattice_compared": 0, "cell_dependent_choice": 0, "max_G": 0}
+    sh_dep, sh_amb = [], 0
+    nn = {"cases": 0, "files_read_and_judged": 0, "cases_with_several_weights": 0, "no_solution": 0}
     for c, r in zip(cases, results):
         o = r.get("obs") or {}
         p = f"{c['lat']}:{'x'.join(map(str, c['mesh']))}"
+        if c["kind"] == "sheared":
+            sh["cases"] += 1
+            if o.get("no_solution"):
+                sh["no_solution"] += 1
+                sh["refusals_where_compact_cell_succeeds"] += bool(o.get("compact_cell_has_solution"))
+                continue
+            if o.get("ambiguous"):
+                sh_amb += 1
+                continue
+            sh["judged"] += 1
+            sh["beyond_default_box"] += bool(o.get("beyond_default_box"))
+            sh["max_G"] = max(sh["max_G"], int(o.get("max_G", 0)))
+            if "cell_dependent_choice" in o:
+                sh["same_mesh_lattice_compared"] += 1
+                if o["cell_dependent_choice"]:
+                    sh["cell_dependent_choice"] += 1
+                    sh_dep.append(f"{p}:{c['shear']}")
+            continue
+        if c["kind"] == "nnkp":
+            nn["cases"] += 1
+            nn["files_read_and_judged"] += int(o.get("nnkp_files", 0))
+            nn["cases_with_several_weights"] += bool(o.get("several_weights"))
+            nn["no_solution"] += bool(o.get("no_solution"))
+            continue
         pairs.add(p)
         if o.get("no_solution"):
             nosol.add(p)
@@ -298,7 +607,10 @@ def finish(tier, cases, results):
         if o.get("negative_weight_shell"):
             neg.add(p)
         norder += int(o.get("orderings", 0))
+    sh["ambiguous_near_tie"] = sh_amb
+    sh["cell_dependent_choice_list"] = sh_dep[:40]
     return {"lattices": len({c["lat"] for c in cases}), "meshes": len({tuple(c["mesh"]) for c in cases}),
             "lattice_mesh_pairs": len(pairs), "from_kpoints_calls_judged": norder,
             "no_solution": sorted(nosol), "ambiguous_near_tie": sorted(amb),
-            "pairs_with_zero_weight_shell": len(zero), "pairs_with_negative_weight_shell": len(neg)}
+            "pairs_with_zero_weight_shell": len(zero), "pairs_with_negative_weight_shell": len(neg),
+            "sheared": sh, "nnkp": nn, "nnkp_orderings": list(NNKP_ORDERS)}
